@@ -94,7 +94,7 @@ Section Step.
   Notation Bb := (B buf).
 
   Lemma step_init c i l u : ul_state l = UInitSIP \/ ul_state l = UInitSIPS \/ ul_state l = UInitTEL ->
-    Inv buf P i l u -> match uri_step c i l u with UGo l' u' => Inv buf P (i + 1) l' u' | _ => True end.
+    Inv buf P i l u -> match uri_step c i l u with UGo l' u' => Inv buf P (i + 1) l' u' | URet _ _ _ => True | UPanic => False end.
   Proof.
     intros Hst [HP HI]. unfold uri_step.
     assert (E : match ul_state l with UInitSIP | UInitSIPS | UInitTEL => True | _ => False end) by (destruct Hst as [->|[->| ->]]; exact I).
@@ -106,7 +106,7 @@ Section Step.
   Qed.
 
   Lemma step_user c i l u : ul_state l = UUser -> Bb i = c ->
-    Inv buf P i l u -> match uri_step c i l u with UGo l' u' => Inv buf P (i + 1) l' u' | _ => True end.
+    Inv buf P i l u -> match uri_step c i l u with UGo l' u' => Inv buf P (i + 1) l' u' | URet _ _ _ => True | UPanic => False end.
   Proof.
     intros Hst Hc [HP HI]. unfold uri_step. rewrite Hst in *.
     destruct HI as (Hs & Hi & Hf & Hpo & H1 & H2 & H3 & H4 & H5 & H6).
@@ -126,7 +126,7 @@ Section Step.
   Qed.
 
   Lemma step_pass c i l u : ul_state l = UPass0 \/ ul_state l = UPass1 -> Bb i = c ->
-    Inv buf P i l u -> match uri_step c i l u with UGo l' u' => Inv buf P (i + 1) l' u' | _ => True end.
+    Inv buf P i l u -> match uri_step c i l u with UGo l' u' => Inv buf P (i + 1) l' u' | URet _ _ _ => True | UPanic => False end.
   Proof.
     intros Hst Hc [HP HI]. unfold uri_step, u_endport, u_acc_port.
     destruct l as [st s fnd po' pn eh], u as [ty sch us pw ho pt pa hd pno]; cbn in *.
@@ -154,7 +154,7 @@ Section Step.
 
   Lemma step_host c i l u :
     ul_state l = UHost0 \/ ul_state l = UHost1 \/ ul_state l = UHost61 \/ ul_state l = UHost6E -> Bb i = c ->
-    Inv buf P i l u -> match uri_step c i l u with UGo l' u' => Inv buf P (i + 1) l' u' | _ => True end.
+    Inv buf P i l u -> match uri_step c i l u with UGo l' u' => Inv buf P (i + 1) l' u' | URet _ _ _ => True | UPanic => False end.
   Proof.
     intros Hst Hc [HP HI]. unfold uri_step.
     destruct l as [st s fnd po' pn eh], u as [ty sch us pw ho pt pa hd pno]; cbn in *.
@@ -191,7 +191,7 @@ Section Step.
   Qed.
 
   Lemma step_port c i l u : ul_state l = UPort -> Bb i = c ->
-    Inv buf P i l u -> match uri_step c i l u with UGo l' u' => Inv buf P (i + 1) l' u' | _ => True end.
+    Inv buf P i l u -> match uri_step c i l u with UGo l' u' => Inv buf P (i + 1) l' u' | URet _ _ _ => True | UPanic => False end.
   Proof.
     intros Hst Hc [HP HI]. unfold uri_step, u_endport, u_acc_port.
     destruct l as [st s fnd po' pn eh], u as [ty sch us pw ho pt pa hd pno]; cbn in *. subst st.
@@ -236,7 +236,7 @@ Section Step.
   (* the late '@': what was read since the scheme becomes user[:password] *)
   Lemma backtrack_inv c i l u : Bb i = c -> c = c_at -> 4 <= P -> po (u_host u) = P \/ ul_found l = true ->
     Undecided buf i l u -> P < ul_s l -> ul_s l <= i ->
-    match u_backtrack i l u with UGo l' u' => Inv buf P (i + 1) l' u' | _ => True end.
+    match u_backtrack i l u with UGo l' u' => Inv buf P (i + 1) l' u' | URet _ _ _ => True | UPanic => False end.
   Proof.
     intros Hc Ec HP Hho Hun Hs Hi. unfold u_backtrack.
     destruct l as [st s fnd po' pn eh], u as [ty sch us pw ho pt pa hd pno]; cbn in *.
@@ -280,7 +280,7 @@ Section Step.
   Proof. intros [E|E]; unfold uri_step, param_step; rewrite E; reflexivity. Qed.
 
   Lemma step_param c i l u : ul_state l = UParam0 \/ ul_state l = UParam1 -> Bb i = c ->
-    Inv buf P i l u -> match uri_step c i l u with UGo l' u' => Inv buf P (i + 1) l' u' | _ => True end.
+    Inv buf P i l u -> match uri_step c i l u with UGo l' u' => Inv buf P (i + 1) l' u' | URet _ _ _ => True | UPanic => False end.
   Proof.
     intros Hst Hc [HP HI]. rewrite (uri_step_param c i l u Hst).
     assert (HI' : (exists e0, PortPart buf P u e0 /\ Bb e0 = c_semi /\ ul_s l = e0 + 1) /\ ul_s l <= i /\ Undecided buf i l u /\
@@ -312,7 +312,7 @@ Section Step.
   Qed.
 
   Lemma step_headers c i l u : ul_state l = UHeaders -> Bb i = c ->
-    Inv buf P i l u -> match uri_step c i l u with UGo l' u' => Inv buf P (i + 1) l' u' | _ => True end.
+    Inv buf P i l u -> match uri_step c i l u with UGo l' u' => Inv buf P (i + 1) l' u' | URet _ _ _ => True | UPanic => False end.
   Proof.
     intros Hst Hc [HP HI]. unfold uri_step. rewrite Hst in *.
     destruct HI as ((e0 & Hpp & Hb & Hs) & Hi & Hun & H6).
@@ -343,7 +343,7 @@ Section Step.
 
   (* one iteration keeps the invariant *)
   Lemma step_inv c i l u : Bb i = c -> Inv buf P i l u ->
-    match uri_step c i l u with UGo l' u' => Inv buf P (i + 1) l' u' | _ => True end.
+    match uri_step c i l u with UGo l' u' => Inv buf P (i + 1) l' u' | URet _ _ _ => True | UPanic => False end.
   Proof.
     intros Hc HI. destruct (ul_state l) eqn:Es.
     - apply step_init; auto.
@@ -488,4 +488,71 @@ Proof.
   unfold tel_swap in *. destruct (u_type u0 =? TELuri) eqn:E.
   - split; [destruct u0; reflexivity|]. exists P, u0. destruct u0; cbn. auto 10.
   - apply N.eqb_neq in E. congruence.
+Qed.
+
+(* ---- ParseURI never panics ------------------------------------------------------------------------------------------ *)
+Lemma finish_nopanic buf P i l u : Inv buf P i l u -> uri_finish i l u <> UPanic.
+Proof.
+  intros [HP HI]. unfold uri_finish, u_endport.
+  destruct l as [st s fnd po' pn eh], u as [ty sch us pw ho pt pa hd pno]; cbn in *.
+  assert (NP : forall x : ustep, (match x with UPanic => False | _ => True end) -> x <> UPanic) by (intros x Hx E; rewrite E in Hx; exact Hx).
+  apply NP.
+  destruct st; try exact I.
+  - destruct HI as (Hs & Hi & _). subst s. rewrite (pf_set_some P i Hi). destruct fnd; exact I.
+  - destruct HI as (_ & _ & _ & _ & Hs & Hi & _). rewrite (pf_set_some s i Hi). cbn.
+    destruct (fnd || false); [exact I|]. destruct (65535 <? pn); exact I.
+  - destruct fnd; exact I.
+  - destruct HI as (_ & Hi & _). rewrite (pf_set_some s i Hi). exact I.
+  - destruct HI as (_ & Hi & _). rewrite (pf_set_some s i Hi). exact I.
+  - destruct HI as (_ & Hi & _). rewrite (pf_set_some s i Hi). cbn. destruct (65535 <? pn); exact I.
+  - destruct HI as (_ & Hi & _). rewrite (pf_set_some s i Hi). exact I.
+  - destruct HI as (_ & Hi & _). rewrite (pf_set_some s i Hi). exact I.
+  - destruct HI as (_ & Hi & _). rewrite (pf_set_some s i Hi). cbn. destruct eh; exact I.
+Qed.
+
+Lemma loop_nopanic buf P : forall r i l u, skipn (N.to_nat i) buf = r -> Inv buf P i l u -> uri_loop r i l u <> UPanic.
+Proof.
+  induction r as [|c r IH]; intros i l u Hsk HI; cbn [uri_loop].
+  - now apply (finish_nopanic buf P).
+  - pose proof (step_inv buf P c i l u (nth_skipn_hd buf _ c r 0 Hsk) HI) as Hst.
+    destruct (uri_step c i l u) as [l1 u1|e1 o1 u1|]; [|discriminate|contradiction].
+    apply IH; [|exact Hst]. replace (N.to_nat (i + 1)) with (S (N.to_nat i)) by lia. exact (skipn_S_tail buf _ c r Hsk).
+Qed.
+
+Lemma loop_not_go : forall r i l u l1 u1, uri_loop r i l u <> UGo l1 u1.
+Proof.
+  induction r as [|x r IH]; intros i l u l1 u1 E; cbn [uri_loop] in E.
+  - unfold uri_finish, u_endport in E.
+    destruct (ul_state l); repeat match type of E with
+                                  | context [if ?b then _ else _] => destruct b
+                                  | context [match pf_set ?a ?b with _ => _ end] => destruct (pf_set a b)
+                                  end; discriminate.
+  - destruct (uri_step x i l u); [eapply IH; exact E|discriminate|discriminate].
+Qed.
+
+Theorem parse_uri_total uri : parse_uri uri puri0 <> None.
+Proof.
+  unfold parse_uri.
+  destruct uri as [|a [|b [|c [|d [|e5 rest]]]]]; try discriminate.
+  set (uri := a :: b :: c :: d :: e5 :: rest).
+  assert (Hstart : forall t st schlen, (schlen = 3 \/ schlen = 4)%nat ->
+     st = UInitSIP \/ st = UInitSIPS \/ st = UInitTEL ->
+     match pf_set 0 (nnat schlen + 1) with
+     | None => None
+     | Some sc => match uri_loop (skipn (S schlen) uri) (nnat schlen + 1) (mkuloc st 0 false 0 0 false)
+                          (puri0 <| u_type := t |> <| u_scheme := sc |>) with
+                  | URet e o u' => Some (e, o, u') | _ => None end
+     end <> None).
+  { intros t st schlen Hs Hst. rewrite pf_set_some by lia.
+    pose proof (loop_nopanic uri (nnat schlen + 1) (skipn (S schlen) uri) (nnat schlen + 1) (mkuloc st 0 false 0 0 false)
+                  (puri0 <| u_type := t |> <| u_scheme := mkpf 0 (nnat schlen + 1 - 0) |>)) as H.
+    destruct (uri_loop _ _ _ _) as [l1 u1|e2 o2 u2|] eqn:E; [|discriminate|].
+    - exfalso. exact (loop_not_go _ _ _ _ _ _ E).
+    - exfalso. apply H; [f_equal; unfold nnat; lia| |reflexivity].
+      split; [unfold nnat; destruct Hs as [-> | ->]; lia|]. destruct Hst as [-> | [-> | ->]]; cbn; repeat split; reflexivity. }
+  cbv zeta.
+  repeat match goal with |- context [if ?b then _ else _] => destruct b end; try discriminate.
+  - apply (Hstart SIPuri UInitSIP 3%nat (or_introl eq_refl) (or_introl eq_refl)).
+  - apply (Hstart TELuri UInitTEL 3%nat (or_introl eq_refl) (or_intror (or_intror eq_refl))).
+  - apply (Hstart SIPSuri UInitSIPS 4%nat (or_intror eq_refl) (or_intror (or_introl eq_refl))).
 Qed.
